@@ -42,6 +42,27 @@ pub mod m3 {
         // x spans the columns (nc), z the rows (nr)
         HfInfo { tok, half: [sc.x * 0.5, sc.z * 0.5], cw: [sc.x / (nc - 1) as f64, sc.z / (nr - 1) as f64], top, haxes: vec![0, 2] }
     }
+    /// height field from a height function on the sample grid: `nx` samples along x (matrix columns), `nz` along z (rows)
+    pub fn hf_grid_tok(nx: usize, nz: usize, h: &dyn Fn(usize, usize) -> f64, sx: f64, sy: f64, sz: f64, st: &[(usize, usize, u8)]) -> String {
+        let mut hs = Vec::new();
+        for j in 0..nx { for i in 0..nz { hs.push(h(j, i)); } }
+        let sts: Vec<String> = st.iter().map(|(jx, iz, b)| format!("{} {} {}", iz, jx, b)).collect();
+        format!("hf {} {} {} {} {}{}{}", nz, nx, hxs(hs.iter()), dx::hv(&dx::Vector::new(sx, sy, sz)), sts.len(), if sts.is_empty() { "" } else { " " }, sts.join(" "))
+    }
+    /// the grid-line coordinates of the height field as the shape itself reports them: one list per horizontal axis (x, z)
+    pub fn hf_lines(h: &px::shape::HeightField) -> Vec<Vec<f64>> {
+        vec![(0..=h.ncols()).map(|j| h.x_at(j)).collect(), (0..=h.nrows()).map(|i| h.z_at(i)).collect()]
+    }
+    pub const HAXES: [usize; 2] = [0, 2];
+    /// the cell `(i, j)` (row, column) a triangle handed to the dispatcher belongs to (exact vertex comparison)
+    pub fn hf_cell_of(h: &px::shape::HeightField, g: &dyn px::shape::Shape) -> Option<(usize, usize)> {
+        let t = g.as_triangle()?;
+        for i in 0..h.nrows() { for j in 0..h.ncols() {
+            let (a, b) = h.triangles_at(i, j);
+            for c in [a, b].into_iter().flatten() { if c.a == t.a && c.b == t.b && c.c == t.c { return Some((i, j)); } }
+        } }
+        None
+    }
     /// small triangle mesh: a bumpy 3x3 .. 4x4 grid, or a tetrahedron
     pub fn gen_trimesh_tok(r: &mut Rng, lat: bool) -> (String, Vec<dx::Point<f64>>) {
         let mut pts = Vec::new(); let mut idx: Vec<[usize; 3]> = Vec::new();
@@ -118,6 +139,24 @@ pub mod m2 {
         let top = hs.iter().cloned().fold(f64::MIN, f64::max) * sc.y;
         let tok = format!("hf {} {} {} {}{}{}", n, hxs(hs.iter()), dx::hv(&sc), rem.len(), if rem.is_empty() { "" } else { " " }, rem.join(" "));
         HfInfo { tok, half: [sc.x * 0.5, 0.0], cw: [sc.x / (n - 1) as f64, 1.0], top, haxes: vec![0] }
+    }
+    /// height field from a height function on the sample grid (`nz`, `sz` and the second index are unused in 2-D)
+    pub fn hf_grid_tok(nx: usize, _nz: usize, h: &dyn Fn(usize, usize) -> f64, sx: f64, sy: f64, _sz: f64, st: &[(usize, usize, u8)]) -> String {
+        let hs: Vec<f64> = (0..nx).map(|j| h(j, 1)).collect();
+        let mut rem: Vec<usize> = st.iter().map(|x| x.0).collect(); rem.sort(); rem.dedup();
+        let rs: Vec<String> = rem.iter().map(|x| format!("{}", x)).collect();
+        format!("hf {} {} {} {}{}{}", nx, hxs(hs.iter()), dx::hv(&dx::Vector::new(sx, sy)), rs.len(), if rs.is_empty() { "" } else { " " }, rs.join(" "))
+    }
+    /// the grid-line coordinates of the height field (end points of its cells, computed as the cast computes them)
+    pub fn hf_lines(h: &px::shape::HeightField) -> Vec<Vec<f64>> {
+        vec![(0..=h.num_cells()).map(|j| h.cell_width() * (j as f64) + h.start_x()).collect()]
+    }
+    pub const HAXES: [usize; 1] = [0];
+    /// the cell a segment handed to the dispatcher belongs to (exact vertex comparison); reported as `(0, j)`
+    pub fn hf_cell_of(h: &px::shape::HeightField, g: &dyn px::shape::Shape) -> Option<(usize, usize)> {
+        let t = g.as_segment()?;
+        for j in 0..h.num_cells() { if let Some(c) = h.segment_at(j) { if c.a == t.a && c.b == t.b { return Some((0, j)); } } }
+        None
     }
     /// small 2-D triangle mesh: a fan / strip of triangles
     pub fn gen_trimesh_tok(r: &mut Rng, lat: bool) -> (String, Vec<dx::Point<f64>>) {
